@@ -1,6 +1,13 @@
 -- Root of the `ScyllaVerif` library: every property module (so `lake build` checks all theorems).
+import ScyllaVerif.Props.C02
 import ScyllaVerif.Props.C03
 import ScyllaVerif.Props.C09
 import ScyllaVerif.Props.C11
 import ScyllaVerif.Props.C16
 import ScyllaVerif.Props.C18
+import ScyllaVerif.Props.C06
+import ScyllaVerif.Props.C15
+import ScyllaVerif.Props.C13
+import ScyllaVerif.Props.C08
+import ScyllaVerif.Props.C01
+import ScyllaVerif.Props.C19
